@@ -104,6 +104,23 @@ def std_model(m, path, args, t):
         return Tagged(len(a0[1]), seq_class(a0[1]))
     if re.search(r'(string::String|str::<impl str>)::is_empty$', path) and is_str(a0):
         return int(not a0[1])
+    if re.search(r'str::<impl str>::(find|rfind)$', path) and len(args) == 2 and is_str(a0):
+        pat = m.deref_value(args[1])
+        if isinstance(pat, str) and len(pat) == 1:
+            idx = [i for i, x in enumerate(a0[1]) if x == pat]
+            if not idx:
+                return none(m)
+            i = idx[0] if path.endswith('::find') else idx[-1]
+            return some(m, Tagged(i, seq_class(a0[1])))           # a position measured on this very sequence
+        raise Unknown('find(%r)' % (pat,))
+    if re.search(r'str::<impl str>::(contains|starts_with|ends_with)$', path) and len(args) == 2 and is_str(a0):
+        pat = m.deref_value(args[1])
+        if isinstance(pat, str) and len(pat) == 1:
+            if path.endswith('contains'):
+                return int(pat in a0[1])
+            if path.endswith('starts_with'):
+                return int(bool(a0[1]) and a0[1][0] == pat)
+            return int(bool(a0[1]) and a0[1][-1] == pat)
     if re.search(r'str::<impl str>::chars$', path) and is_str(a0):
         return ('it', list(a0[1]), 'chars')
     if re.search(r'str::<impl str>::char_indices$', path) and is_str(a0):
